@@ -318,6 +318,8 @@ func (w *WAL) mutateStateLocked(tx stateTxn) error {
 		return err
 	}
 
+	verifPoint("mutateState.committed")
+
 	if postCommit != nil {
 		if err := postCommit(); err != nil {
 			// The new metadata is already durable but we couldn't create the segment
@@ -331,6 +333,7 @@ func (w *WAL) mutateStateLocked(tx stateTxn) error {
 	}
 
 	w.s.Store(&newS)
+	verifPoint("mutateState.published")
 	s.finalizer.Store(fn)
 	return nil
 }
@@ -341,6 +344,7 @@ func (w *WAL) mutateStateLocked(tx stateTxn) error {
 // truncated concurrently.
 func (w *WAL) acquireState() (*state, func()) {
 	s := w.loadState()
+	verifPoint("acquireState.loaded")
 	return s, s.acquire()
 }
 
@@ -375,6 +379,7 @@ func (w *WAL) FirstIndex() (uint64, error) {
 	if err := w.checkClosed(); err != nil {
 		return 0, err
 	}
+	verifPoint("FirstIndex.checked")
 	s, release, err := w.acquireOpenState()
 	if err != nil {
 		return 0, err
@@ -388,6 +393,7 @@ func (w *WAL) LastIndex() (uint64, error) {
 	if err := w.checkClosed(); err != nil {
 		return 0, err
 	}
+	verifPoint("LastIndex.checked")
 	s, release, err := w.acquireOpenState()
 	if err != nil {
 		return 0, err
@@ -401,6 +407,7 @@ func (w *WAL) GetLog(index uint64, log *raft.Log) error {
 	if err := w.checkClosed(); err != nil {
 		return err
 	}
+	verifPoint("GetLog.checked")
 	s, release, err := w.acquireOpenState()
 	if err != nil {
 		return err
@@ -432,8 +439,10 @@ func (w *WAL) StoreLogs(logs []*raft.Log) error {
 	if len(logs) < 1 {
 		return nil
 	}
+	verifPoint("StoreLogs.checked")
 
 	w.writeMu.Lock()
+	verifPoint("StoreLogs.locked")
 	defer w.writeMu.Unlock()
 
 	// Ensure queued rotation has completed before us if we raced with it for
@@ -530,6 +539,7 @@ func (w *WAL) awaitRotationLocked() {
 		// We managed to race for writeMu with the background rotate operation which
 		// needs to complete first. Wait for it to complete.
 		w.writeMu.Unlock()
+		verifPoint("awaitRotation.waiting")
 		<-awaitCh
 		w.writeMu.Lock()
 	}
@@ -546,8 +556,10 @@ func (w *WAL) DeleteRange(min uint64, max uint64) error {
 		// Empty inclusive range.
 		return nil
 	}
+	verifPoint("DeleteRange.checked")
 
 	w.writeMu.Lock()
+	verifPoint("DeleteRange.locked")
 	defer w.writeMu.Unlock()
 
 	// Ensure queued rotation has completed before us if we raced with it for
@@ -610,6 +622,7 @@ func (w *WAL) Set(key []byte, val []byte) error {
 	if err := w.checkClosed(); err != nil {
 		return err
 	}
+	verifPoint("Set.checked")
 	w.metrics.IncrementCounter("stable_sets", 1)
 	return w.metaDB.SetStable(key, val)
 }
@@ -619,6 +632,7 @@ func (w *WAL) Get(key []byte) ([]byte, error) {
 	if err := w.checkClosed(); err != nil {
 		return nil, err
 	}
+	verifPoint("Get.checked")
 	w.metrics.IncrementCounter("stable_gets", 1)
 	return w.metaDB.GetStable(key)
 }
@@ -662,8 +676,10 @@ func (w *WAL) triggerRotateLocked(indexStart uint64) {
 func (w *WAL) runRotate() {
 	for {
 		indexStart := <-w.triggerRotate
+		verifPoint("runRotate.received")
 
 		w.writeMu.Lock()
+		verifPoint("runRotate.locked")
 
 		// Either triggerRotate was closed by Close, or Close raced with a real
 		// trigger, either way shut down without changing anything else. In the
@@ -998,10 +1014,12 @@ func (w *WAL) Close() error {
 		// Only close once
 		return nil
 	}
+	verifPoint("Close.flagSet")
 
 	// Wait for writes
 	w.writeMu.Lock()
 	defer w.writeMu.Unlock()
+	verifPoint("Close.locked")
 
 	// It doesn't matter if there is a rotation scheduled because runRotate will
 	// exist when it sees we are closed anyway. It won't signal completion in
@@ -1020,6 +1038,7 @@ func (w *WAL) Close() error {
 	defer s.release()
 
 	w.s.Store(&state{})
+	verifPoint("Close.stateSwapped")
 
 	// Old state might be still in use by readers, attach closers to all open
 	// segment files.
